@@ -69,6 +69,46 @@ framing_harness!(k_bf_framing_9, 9, 16);
 //@desc as above, length 13
 framing_harness!(k_bf_framing_13, 13, 16);
 
+//@unit name=k_bf_framing_2 props=C11,C17 label=S tier=thorough fn=blowfish::Blowfish::{pad_buffer,encrypt,decrypt} bound="message length 2" stubs=encrypt_pair,decrypt_pair
+//@desc as above, length 2
+framing_harness!(k_bf_framing_2, 2, 8);
+
+//@unit name=k_bf_framing_3 props=C11,C17 label=S tier=thorough fn=blowfish::Blowfish::{pad_buffer,encrypt,decrypt} bound="message length 3" stubs=encrypt_pair,decrypt_pair
+//@desc as above, length 3
+framing_harness!(k_bf_framing_3, 3, 8);
+
+//@unit name=k_bf_framing_4 props=C11,C17 label=S tier=thorough fn=blowfish::Blowfish::{pad_buffer,encrypt,decrypt} bound="message length 4" stubs=encrypt_pair,decrypt_pair
+//@desc as above, length 4
+framing_harness!(k_bf_framing_4, 4, 8);
+
+//@unit name=k_bf_framing_5 props=C11,C17 label=S tier=thorough fn=blowfish::Blowfish::{pad_buffer,encrypt,decrypt} bound="message length 5" stubs=encrypt_pair,decrypt_pair
+//@desc as above, length 5
+framing_harness!(k_bf_framing_5, 5, 8);
+
+//@unit name=k_bf_framing_6 props=C11,C17 label=S tier=thorough fn=blowfish::Blowfish::{pad_buffer,encrypt,decrypt} bound="message length 6" stubs=encrypt_pair,decrypt_pair
+//@desc as above, length 6
+framing_harness!(k_bf_framing_6, 6, 8);
+
+//@unit name=k_bf_framing_10 props=C11,C17 label=S tier=thorough fn=blowfish::Blowfish::{pad_buffer,encrypt,decrypt} bound="message length 10" stubs=encrypt_pair,decrypt_pair
+//@desc as above, length 10
+framing_harness!(k_bf_framing_10, 10, 16);
+
+//@unit name=k_bf_framing_11 props=C11,C17 label=S tier=thorough fn=blowfish::Blowfish::{pad_buffer,encrypt,decrypt} bound="message length 11" stubs=encrypt_pair,decrypt_pair
+//@desc as above, length 11
+framing_harness!(k_bf_framing_11, 11, 16);
+
+//@unit name=k_bf_framing_12 props=C11,C17 label=S tier=thorough fn=blowfish::Blowfish::{pad_buffer,encrypt,decrypt} bound="message length 12" stubs=encrypt_pair,decrypt_pair
+//@desc as above, length 12
+framing_harness!(k_bf_framing_12, 12, 16);
+
+//@unit name=k_bf_framing_14 props=C11,C17 label=S tier=thorough fn=blowfish::Blowfish::{pad_buffer,encrypt,decrypt} bound="message length 14" stubs=encrypt_pair,decrypt_pair
+//@desc as above, length 14
+framing_harness!(k_bf_framing_14, 14, 16);
+
+//@unit name=k_bf_framing_15 props=C11,C17 label=S tier=thorough fn=blowfish::Blowfish::{pad_buffer,encrypt,decrypt} bound="message length 15" stubs=encrypt_pair,decrypt_pair
+//@desc as above, length 15
+framing_harness!(k_bf_framing_15, 15, 16);
+
 //@unit name=k_bf_framing_16 props=C11,C17 label=S tier=thorough fn=blowfish::Blowfish::{pad_buffer,encrypt,decrypt} bound="message length 16" stubs=encrypt_pair,decrypt_pair
 //@desc as above, length 16
 framing_harness!(k_bf_framing_16, 16, 16);
